@@ -347,6 +347,82 @@ def asan_support(run, calls, timeout=900):
     return info
 
 
+def far_grid_task(seed):
+    """Grid-address kernels with addresses far outside [0, mesh): synthetic addresses shifted by multiples of the mesh in
+    both directions, and the public tetrahedron DOS of a crystal described by a sheared, non-reduced basis (GridPoints then
+    passes BZ-relocated addresses beyond +-mesh).  Runs in the sanitizer child; returns plain data for the parent."""
+    import random
+    import warnings
+
+    import phonopy
+    from phonopy.structure import tetrahedron_method as TM
+
+    warnings.simplefilter("ignore")
+    rng = random.Random(seed)
+    shim = common._STATE["shim"]
+    rga = np.array(TM.TetrahedronMethod(None).tetrahedra, dtype="int64")
+    central = [int(np.nonzero((np.array(t_) == 0).all(axis=1))[0][0]) for t_ in rga]
+    out = {"synthetic": [], "public": None}
+    for trial in range(5):
+        mesh = np.array([rng.randint(2, 5) for _ in range(3)], dtype="int64")
+        ng = int(np.prod(mesh))
+        base = np.array([[i, j, k] for k in range(mesh[2]) for j in range(mesh[1]) for i in range(mesh[0])], dtype="int64")
+        shift = np.array([[rng.randint(-3, 3) for _ in range(3)] for _ in range(ng)], dtype="int64") * mesh[None, :]
+        ga = base + shift
+        nb = 2
+        r = np.random.RandomState(seed * 100 + trial)
+        freqs = np.sort(r.uniform(0, 4, size=(ng, nb)), axis=1)
+        gpir = np.arange(ng, dtype="int64")
+        gps = np.array(sorted(rng.sample(range(ng), min(ng, 6))), dtype="int64")
+        print("FARGRID synthetic", trial, mesh.tolist(), flush=True)
+        ft = np.zeros((len(gps), nb, 24, 4))
+        a_tf = [ft, gps, mesh, ga, gpir, rga.reshape(24, 4, 3), freqs]
+        shim.call("tetrahedra_frequencies", *a_tf)
+        want = ref.tetrahedra_frequencies([np.zeros_like(ft)] + a_tf[1:])[0]
+        d1 = float(np.abs(ft - want).max())
+        fpts = np.array([0.7, 2.0, 3.1])
+        coef = np.ones((ng, 1, nb))
+        dos = np.zeros((ng, nb, len(fpts), 1))
+        a_dos = [dos, mesh, fpts, freqs, coef, ga, gpir.copy(), rga]
+        shim.call("tetrahedron_method_dos", *a_dos)
+        tpx = TM.TetrahedronMethod(None, lang="Py")
+        d2 = None
+        if hasattr(tpx, "_relative_grid_addresses") and hasattr(tpx, "_central_indices"):
+            tpx._relative_grid_addresses, tpx._central_indices = np.array(rga), central
+
+            def iwf(w, tet, tpx=tpx):
+                tpx.set_tetrahedra_omegas(tet)
+                tpx.run(w, value="I")
+                return tpx.get_integration_weight()
+            wantd = ref.tetrahedron_method_dos([np.zeros_like(dos)] + a_dos[1:], iwf)[0]
+            d2 = float(np.abs(dos - wantd).max())
+        out["synthetic"].append(dict(mesh=mesh.tolist(), max_abs_address_over_mesh=float(np.abs(ga / mesh[None, :]).max()), tetrahedra_frequencies_diff=d1, dos_diff=d2,
+                                     grid_address=ga.tolist(), grid_points=gps.tolist(), frequencies=freqs.tolist()))
+    # ---- public path: the same crystal in a sheared, non-reduced basis (a2' = 2 a1 + a2, a3' = -a1 + a2 + a3)
+    print("FARGRID public", flush=True)
+    M = [[1, 0, 0], [2, 1, 0], [-1, 1, 1]]
+    cell0, _ = gen.make_cell("cscl")
+    cell1, qmap, smap = gen.relabelled_cell(cell0, M)
+    from phonopy.phonon.tetrahedron_mesh import TetrahedronMesh
+    ph = phonopy.Phonopy(cell1, supercell_matrix=smap(np.diag([2, 2, 2])), primitive_matrix="P", log_level=0)
+    ph.force_constants = gen.pair_fc(ph.supercell, 1.45 * nn_distance(ph.primitive))
+    ph.run_mesh([5, 5, 5], is_gamma_center=True)
+    msh = ph.mesh
+    fpts = np.arange(0.0, 8.0 + 1e-9, 0.25)
+    ph.run_total_dos(freq_min=0.0, freq_max=8.0, freq_pitch=0.25, use_tetrahedron_method=True)
+    td = ph.get_total_dos_dict()
+    iws = {}
+    for lang in ("C", "Py"):
+        tm_ = TetrahedronMesh(ph.primitive, np.array(msh.frequencies), msh.mesh_numbers, np.array(msh.grid_address, dtype="int64"),
+                              np.array(msh.grid_mapping_table, dtype="int64"), msh.ir_grid_points, lang=lang)
+        tm_.set(value="I", frequency_points=np.array(td["frequency_points"]), lang=lang)
+        iws[lang] = np.array([iw.copy() for iw in tm_])
+    dos_py = (np.array(msh.weights)[:, None, None] * iws["Py"]).sum(axis=0).sum(axis=1)
+    out["public"] = dict(M=M, mesh=[5, 5, 5], weights_C_vs_Py=float(np.abs(iws["C"] - iws["Py"]).max()), total_dos_vs_Py=float(np.abs(np.array(td["total_dos"]) - dos_py).max()),
+                         max_abs_grid_address_sheared=int(np.abs(np.array(msh.grid_address)).max()), dos_scale=float(np.abs(dos_py).max()))
+    return out
+
+
 PREFLIGHT_CHILD = r"""
 import pickle, sys, os, warnings
 warnings.simplefilter("ignore")
@@ -367,10 +443,14 @@ for k, cfg in enumerate(cfgs):
     print("PREFLIGHT-SCENARIO", k, flush=True)
     c13.scenario(cfg)
 print("PREFLIGHT-DONE", flush=True)
+print("FARGRID-START", flush=True)
+res = c13.far_grid_task(%(seed)d)
+pickle.dump(res, open(%(out)r, "wb"))
+print("FARGRID-DONE", flush=True)
 """
 
 
-def asan_preflight(cfgs):
+def asan_preflight(cfgs, seed=0):
     info = {}
     try:
         lib = common.build_lib("omp", extra_flags=("-fsanitize=address,undefined", "-fno-omit-frame-pointer", "-g", "-fno-sanitize-recover=undefined"), tag="asan")
@@ -386,14 +466,20 @@ def asan_preflight(cfgs):
         env.update({"LD_PRELOAD": rt, "ASAN_OPTIONS": "detect_leaks=0:abort_on_error=0:exitcode=97:allocator_may_return_null=1",
                     "UBSAN_OPTIONS": "print_stacktrace=1:halt_on_error=1:exitcode=98", "OMP_NUM_THREADS": "4"})
         try:
-            r = subprocess.run([sys.executable, "-c", PREFLIGHT_CHILD % dict(verif=common.VERIF, lib=lib, pk=pk)], capture_output=True, text=True, timeout=240, env=env, cwd=common.VERIF)
+            outp = os.path.join(td, "fargrid.pkl")
+            r = subprocess.run([sys.executable, "-c", PREFLIGHT_CHILD % dict(verif=common.VERIF, lib=lib, pk=pk, seed=seed, out=outp)], capture_output=True, text=True, timeout=300, env=env, cwd=common.VERIF)
         except subprocess.TimeoutExpired:
             return {"status": "skipped: preflight child timed out"}
+        if os.path.exists(outp):
+            info["fargrid"] = pickle.load(open(outp, "rb"))
     info["returncode"] = r.returncode
     last = [l for l in r.stdout.split("\n") if l.startswith("PREFLIGHT-SCENARIO")]
     if last:
         info["scenario_index"] = int(last[-1].split()[1])
-    if "PREFLIGHT-DONE" in r.stdout and r.returncode == 0:
+    info["stage"] = "far-grid-addresses" if "FARGRID-START" in r.stdout else "scenarios"
+    fl = [l for l in r.stdout.split("\n") if l.startswith("FARGRID ")]
+    info["fargrid_last"] = fl[-1] if fl else None
+    if "FARGRID-DONE" in r.stdout and r.returncode == 0:
         info["status"] = "clean"
     elif "AddressSanitizer" in r.stderr or "runtime error" in r.stderr:
         info["status"] = "REPORT"
@@ -931,8 +1017,33 @@ def main(run):
         cfgs.append(cfg)
     # ---- pre-flight: the first scenarios once through the public path in a child process against the sanitizer build.
     # Heap corruption inside a kernel can take the checking process down before any verdict; the child finds it first.
-    pre = asan_preflight(cfgs[:2])
-    run.cov["oracle"]["sanitizer_preflight"] = {k: v for k, v in pre.items() if k not in ("report", "report_full")}
+    pre = asan_preflight(cfgs[:2], seed=run.seed)
+    run.cov["oracle"]["sanitizer_preflight"] = {k: v for k, v in pre.items() if k not in ("report", "report_full", "fargrid")}
+    fg = pre.get("fargrid")
+    if fg:
+        for rec_ in fg["synthetic"]:
+            run.count("far grid-address kernel calls (|address| up to %.0f x mesh)" % rec_["max_abs_address_over_mesh"], section="oracle")
+            run.case(("fargrid", tuple(rec_["mesh"]), str(rec_["grid_address"][:4])), nontrivial=rec_["max_abs_address_over_mesh"] > 1)
+            if rec_["tetrahedra_frequencies_diff"] > 1e-12 or (rec_["dos_diff"] is not None and rec_["dos_diff"] > 1e-9):
+                run.violation("phonopy._phonopy.tetrahedra_frequencies" if rec_["tetrahedra_frequencies_diff"] > 1e-12 else "phonopy._phonopy.tetrahedron_method_dos", "grid-address-not-reduced-modulo-mesh",
+                              "grid addresses several multiples of the mesh away from [0, mesh) give a result different from the reference `(address %% mesh)` (frequencies diff %.3g, DOS diff %s)" % (rec_["tetrahedra_frequencies_diff"], rec_["dos_diff"]),
+                              dict(mesh=rec_["mesh"], grid_address=rec_["grid_address"], grid_points=rec_["grid_points"], frequencies=rec_["frequencies"]))
+                break
+        pb = fg.get("public")
+        if pb:
+            run.cov["oracle"]["sheared-basis DOS"] = {k: v for k, v in pb.items()}
+            run.case(("fargrid-public", str(pb["M"])), nontrivial=pb["max_abs_grid_address_sheared"] > 5)
+            if pb["weights_C_vs_Py"] > 1e-9 or pb["total_dos_vs_Py"] > 1e-8 * max(1.0, pb["dos_scale"]):
+                run.violation("TetrahedronMesh / Phonopy.run_total_dos", "tetrahedron-C-vs-Py-sheared-basis",
+                              "for CsCl described in a sheared, non-reduced basis (BZ-relocated grid addresses reach %d on a 5x5x5 mesh) the compiled tetrahedron weights / total DOS differ from the Python reference (weights %.3g, DOS %.3g)" % (
+                                  pb["max_abs_grid_address_sheared"], pb["weights_C_vs_Py"], pb["total_dos_vs_Py"]), dict(cell="cscl", supercell=[2, 2, 2], basis_change=pb["M"], mesh=pb["mesh"]))
+    if pre.get("status") == "REPORT" and pre.get("stage") == "far-grid-addresses":
+        rl = pre.get("report_full", "").split("\n")
+        head = [l.strip() for l in rl if "ERROR: AddressSanitizer" in l or "runtime error" in l][:2] + [l.strip() for l in rl if re.search(r"/c/\w+\.c(pp)?:\d+", l)][:3]
+        run.violation("phonopy._phonopy.tetrahedra_frequencies/tetrahedron_method_dos", "sanitizer-report",
+                      "out-of-bounds access in a grid-address kernel for addresses far outside [0, mesh) (%s): %s" % (pre.get("fargrid_last"), head[0] if head else "see report"),
+                      dict(stage=pre.get("fargrid_last"), seed=run.seed, generator="c13.far_grid_task(seed)", report_head=head))
+        return
     if pre.get("status") == "REPORT":
         rl = pre.get("report_full", "").split("\n")
         head = [l.strip() for l in rl if "ERROR: AddressSanitizer" in l or "runtime error" in l][:2] + [l.strip() for l in rl if re.search(r"/c/\w+\.c(pp)?:\d+", l)][:3] + \
